@@ -16,6 +16,7 @@
 
 use std::{cmp, io, thread};
 use std::fs::{self, canonicalize, create_dir_all, read_link, File, Metadata};
+use std::os::unix::fs::FileTypeExt;
 use std::path::{Path, PathBuf};
 use std::sync::Arc;
 use std::sync::atomic::{AtomicBool, Ordering};
@@ -61,6 +62,18 @@ impl CopyHandle {
             let backup = get_backup_path(to)?;
             info!("Backup: Rename {:?} to {:?}", to, backup);
             fs::rename(to, backup)?;
+        }
+
+        // Opening a FIFO for writing waits for a reader, possibly
+        // for ever, and we couldn't fill it anyway as the file is
+        // sized first.
+        match to.metadata() {
+            Ok(meta) if meta.file_type().is_fifo() => {
+                return Err(XcpError::InvalidDestination("Cannot copy a file onto a FIFO.").into());
+            }
+            Ok(_) => {}
+            Err(e) if e.kind() == io::ErrorKind::NotFound => {}
+            Err(e) => return Err(e.into()),
         }
 
         let outfd = File::create(to)?;
